@@ -238,6 +238,9 @@ class Builder:
                 o["external_body_consts"] = p[1].split()
             elif p[0] == "key":
                 o["key"] = p[1].strip()
+            elif p[0] == "ctype":
+                # the name the members of this impl are keyed under in contracts.vc (two impls for Arc<..> would both be `Arc`)
+                o["ctype"] = p[1].strip()
             elif p[0] == "makepub":
                 o["makepub"] = True
             elif p[0] == "pubfields":
@@ -403,7 +406,7 @@ class Builder:
 
     # ------------------------------------------------------------------ containers (impl / trait)
     def emit_container(self, rel, src, m, it, kw, o):
-        ctype = container_type(it.header)
+        ctype = o.get("ctype") or container_type(it.header)
         ctrait = container_trait(it.header)
         hdr = src[it.start:it.body_open]
         if o["header"]:
@@ -1265,6 +1268,12 @@ class Builder:
                     if "invalid_value" in m[op:cp]:
                         edits.append(Edit(op + 1, cp, [Seg("|_e| E::vx_invalid_value()", "repo", fn=qual)], order=9))
                         self.count("R34")
+            if rule[0] == "R38":
+                # lock wrappers: `X.lock().await` / `X.read().await` / `X.write().await` -> `X.vx_protected` (acquiring the lock is read
+                # as access to the value it protects; sequential reading, see unit lck)
+                for mm in re.finditer(r"\.\s*(?:lock|read|write)\s*\(\s*\)(?=\s*\.\s*await)", m[a:b]):
+                    edits.append(Edit(a + mm.start(), a + mm.end(), [Seg(".vx_protected", "repo", fn=qual)]))
+                    self.count("R38")
             if rule[0] == "R37":
                 # `deserialize_with` members of serde_workaround!: the wrapper struct `__DeserializeWith` and its Deserialize impl are
                 # declared *inside* the match arm; Verus has no items in function bodies, so the two items are taken out (the unit
